@@ -214,7 +214,8 @@ class Cascade:
 
         stage_results: list[StageResult] = []
         current_signal = input_signal
-        cumulative_amplification = 1.0
+        # The running gain never exceeds the maximum, not even before the first stage
+        cumulative_amplification = min(1.0, self.max_amplification)
         blocked_at: str | None = None
 
         for i, stage in enumerate(self._stages):
